@@ -181,7 +181,7 @@ BOUNDARY_PRODUCERS = [
 SKIPPER = "crate::core::skip_ansi_escape_sequence"
 
 
-def _escape_aware(prog, rep):
+def _escape_aware(prog, rep, rule="C05.R5", consequence=None):
     """R5: the width of a paragraph that fits is the sum of the widths of its fragments only if no fragment boundary
     falls inside an escape sequence (display_width is additive over pieces that each contain whole sequences, C10).
     Every producer of boundaries must therefore scan with the escape skipper (directly or through a helper / closure)."""
@@ -208,14 +208,14 @@ def _escape_aware(prog, rep):
         if body is None:
             continue       # not compiled in this configuration
         n += 1
-        r = Rule(rep, "C05.R5", key, site=body.span)
+        r = Rule(rep, rule, key, site=body.span)
         r.check(reaches(key), role, "%s: boundaries are computed by a scan that skips escape sequences" % role,
                 "reaches skip_ansi_escape_sequence in the call graph",
                 "%s without consulting skip_ansi_escape_sequence: a fragment boundary can fall inside an escape sequence; the "
-                "pieces then hold incomplete sequences, display_width is no longer additive over them, and a paragraph whose "
-                "display width fits can be wrapped into several lines" % what)
+                "pieces then hold incomplete sequences, display_width is no longer additive over them, and %s"
+                % (what, consequence or "a paragraph whose display width fits can be wrapped into several lines"))
     if n < 3:
-        rep.violation("C05.R5", "crate", "floor", "crate", "only %d boundary producers found (floor 3)" % n)
+        rep.violation(rule, "crate", "floor", "crate", "only %d boundary producers found (floor 3)" % n)
 
 
 def _fuzzing(prog, rep):
